@@ -30,26 +30,35 @@ package host
 //@   prop C15
 //@   requires set != nil && set.healthyMain != nil && set.healthyBackup != nil
 //@   requires @tier-values-non-nil (forall a string :: has(set.healthyMain, a) ==> set.healthyMain[a] != nil) && (forall a string :: has(set.healthyBackup, a) ==> set.healthyBackup[a] != nil)
+//@   requires @three-distinct-maps set.all != set.healthyMain && set.all != set.healthyBackup && set.healthyMain != set.healthyBackup
+//@   requires @given-hosts-are-the-current-members forall k int :: 0 <= k && k < len(host) && host[k] != nil ==> has(set.all, host[k].Addr) && set.all[host[k].Addr] == host[k]
 //@   modifies mapof(set.healthyMain), mapof(set.healthyBackup), aval
 //@   ensures @added-to-the-tier-of-its-type forall k int :: 0 <= k && k < len(host) && host[k] != nil ==> (host[k].Type == 0 ==> has(set.healthyMain, host[k].Addr)) && (host[k].Type == 1 ==> has(set.healthyBackup, host[k].Addr))
 //@   ensures @tier-values-non-nil (forall a string :: has(set.healthyMain, a) ==> set.healthyMain[a] != nil) && (forall a string :: has(set.healthyBackup, a) ==> set.healthyBackup[a] != nil)
 //@   ensures @cache-describes-the-current-tier (old(cachefresh(set)) || len(host) > 0) ==> cachefresh(set)
+//@   ensures @usable-hosts-are-current-members old(tiersinall(set)) ==> tiersinall(set)
 //@   loop 0 invariant set.healthyMain == old(set.healthyMain) && set.healthyBackup == old(set.healthyBackup) && set.healthyMain != nil && set.healthyBackup != nil
 //@   loop 0 invariant (forall a string :: has(set.healthyMain, a) ==> set.healthyMain[a] != nil) && (forall a string :: has(set.healthyBackup, a) ==> set.healthyBackup[a] != nil)
 //@   loop 0 invariant forall k int :: 0 <= k && k <= rangeindex && host[k] != nil ==> (host[k].Type == 0 ==> has(set.healthyMain, host[k].Addr)) && (host[k].Type == 1 ==> has(set.healthyBackup, host[k].Addr))
+//@   loop 0 invariant set.all == old(set.all) && (forall a string :: has(set.all, a) == old(has(set.all, a)) && set.all[a] == old(set.all[a]))
+//@   loop 0 invariant old(tiersinall(set)) ==> tiersinall(set)
 
 //@ func (*Set).removeFromHealthy
 //@   prop C15 C06
 //@   requires set != nil && set.healthyMain != nil && set.healthyBackup != nil
 //@   requires @tier-values-non-nil (forall a string :: has(set.healthyMain, a) ==> set.healthyMain[a] != nil) && (forall a string :: has(set.healthyBackup, a) ==> set.healthyBackup[a] != nil)
+//@   requires @three-distinct-maps set.all != set.healthyMain && set.all != set.healthyBackup && set.healthyMain != set.healthyBackup
 //@   modifies mapof(set.healthyMain), mapof(set.healthyBackup), aval
 //@   ensures @removed-from-the-tier-of-its-type forall k int :: 0 <= k && k < len(host) && host[k] != nil ==> (host[k].Type == 0 ==> !has(set.healthyMain, host[k].Addr)) && (host[k].Type == 1 ==> !has(set.healthyBackup, host[k].Addr))
 //@   ensures @tier-values-non-nil (forall a string :: has(set.healthyMain, a) ==> set.healthyMain[a] != nil) && (forall a string :: has(set.healthyBackup, a) ==> set.healthyBackup[a] != nil)
 //@   ensures @only-removes (forall a string :: has(set.healthyMain, a) ==> old(has(set.healthyMain, a)) && set.healthyMain[a] == old(set.healthyMain[a])) && (forall a string :: has(set.healthyBackup, a) ==> old(has(set.healthyBackup, a)) && set.healthyBackup[a] == old(set.healthyBackup[a]))
 //@   ensures @cache-describes-the-current-tier (old(cachefresh(set)) || len(host) > 0) ==> cachefresh(set)
+//@   ensures @usable-hosts-are-current-members old(tiersinall(set)) ==> tiersinall(set)
 //@   loop 0 invariant set.healthyMain == old(set.healthyMain) && set.healthyBackup == old(set.healthyBackup) && set.healthyMain != nil && set.healthyBackup != nil
 //@   loop 0 invariant (forall a string :: has(set.healthyMain, a) ==> old(has(set.healthyMain, a)) && set.healthyMain[a] == old(set.healthyMain[a])) && (forall a string :: has(set.healthyBackup, a) ==> old(has(set.healthyBackup, a)) && set.healthyBackup[a] == old(set.healthyBackup[a]))
 //@   loop 0 invariant forall k int :: 0 <= k && k <= rangeindex && host[k] != nil ==> (host[k].Type == 0 ==> !has(set.healthyMain, host[k].Addr)) && (host[k].Type == 1 ==> !has(set.healthyBackup, host[k].Addr))
+//@   loop 0 invariant set.all == old(set.all) && (forall a string :: has(set.all, a) == old(has(set.all, a)) && set.all[a] == old(set.all[a]))
+//@   loop 0 invariant old(tiersinall(set)) ==> tiersinall(set)
 
 //@ func (*Set).buildHealthyCache
 //@   prop C15 C06 C18
@@ -75,13 +84,16 @@ package host
 //@   prop C15 C06
 //@   requires set != nil && set.all != nil && set.healthyMain != nil && set.healthyBackup != nil && forall k int :: 0 <= k && k < len(hosts) ==> hosts[k] != nil
 //@   requires @tier-values-non-nil (forall a string :: has(set.healthyMain, a) ==> set.healthyMain[a] != nil) && (forall a string :: has(set.healthyBackup, a) ==> set.healthyBackup[a] != nil)
+//@   requires @members-present-three-distinct-maps (forall a string :: has(set.all, a) ==> set.all[a] != nil) && set.all != set.healthyMain && set.all != set.healthyBackup && set.healthyMain != set.healthyBackup
 //@   modifies mapof(set.all), mapof(set.healthyMain), mapof(set.healthyBackup), aval, heap("#closed")
 //@   ensures @removed-hosts-leave-the-member-map forall k int :: 0 <= k && k < len(hosts) ==> !has(set.all, hosts[k].Addr)
 //@   ensures @removed-hosts-leave-the-usable-set forall k int :: 0 <= k && k < len(hosts) ==> (hosts[k].Type == 0 ==> !has(set.healthyMain, hosts[k].Addr)) && (hosts[k].Type == 1 ==> !has(set.healthyBackup, hosts[k].Addr))
 //@   ensures @cache-describes-the-current-tier (old(cachefresh(set)) || len(hosts) > 0) ==> cachefresh(set)
 //@   ensures @tiers-stay-well-formed set.healthyMain != nil && set.healthyBackup != nil && set.all != nil && (forall a string :: has(set.healthyMain, a) ==> set.healthyMain[a] != nil) && (forall a string :: has(set.healthyBackup, a) ==> set.healthyBackup[a] != nil) && (forall a string :: has(set.all, a) ==> old(has(set.all, a)) && set.all[a] == old(set.all[a]))
+//@   ensures @usable-hosts-are-current-members old(tiersinall(set)) ==> tiersinall(set)
 //@   loop 0 invariant set.all == old(set.all) && set.healthyMain == old(set.healthyMain) && set.healthyBackup == old(set.healthyBackup) && hostsunchanged(hosts) && (forall k int :: 0 <= k && k <= rangeindex ==> !has(set.all, hosts[k].Addr)) && (forall a string :: has(set.all, a) ==> old(has(set.all, a)) && set.all[a] == old(set.all[a]))
 //@   loop 0 invariant set.all != nil && set.healthyMain != nil && set.healthyBackup != nil && (forall a string :: has(set.healthyMain, a) ==> set.healthyMain[a] != nil) && (forall a string :: has(set.healthyBackup, a) ==> set.healthyBackup[a] != nil)
+//@   loop 0 invariant (forall a string :: has(set.all, a) ==> set.all[a] != nil) && (old(tiersinall(set)) ==> tiersinall(set))
 
 // ---- host statistics (C06 C15 C20): atomics through the ghost map atomu64 ------------------------------
 
@@ -143,10 +155,12 @@ package host
 //@ func (*Set).add
 //@   prop C15
 //@   requires setok(set) && forall k int :: 0 <= k && k < len(hosts) ==> hosts[k] != nil
+//@   requires @one-host-per-address-in-a-call forall a int, b int :: 0 <= a && a < b && b < len(hosts) ==> hosts[a].Addr != hosts[b].Addr
 //@   modifies mapof(set.all), mapof(set.healthyMain), mapof(set.healthyBackup), aval
 //@   ensures @well-formed setok(set)
+//@   ensures @usable-hosts-are-current-members old(tiersinall(set)) ==> tiersinall(set)
 //@   ensures @cache-describes-the-current-tier (old(cachefresh(set)) || len(hosts) > 0) ==> cachefresh(set)
-//@   loop 0 invariant setok(set) && set.all == old(set.all) && set.healthyMain == old(set.healthyMain) && set.healthyBackup == old(set.healthyBackup) && (forall k int :: 0 <= k && k < len(hosts) ==> hosts[k] != nil)
+//@   loop 0 invariant setok(set) && set.all == old(set.all) && set.healthyMain == old(set.healthyMain) && set.healthyBackup == old(set.healthyBackup) && (forall k int :: 0 <= k && k < len(hosts) ==> hosts[k] != nil) && (old(tiersinall(set)) ==> tiersinall(set)) && (forall k int :: 0 <= k && k <= rangeindex ==> has(set.all, hosts[k].Addr) && set.all[hosts[k].Addr] == hosts[k])
 
 //@ func (*Set).ReplaceAll
 //@   prop C15
